@@ -23,7 +23,7 @@ func mapInfoOf(t types.Type) mapInfo {
 		return mapInfo{}
 	}
 	kl := leaves(mt.Key())
-	if len(kl) != 1 || kl[0].sort == "Flt" {
+	if len(kl) != 1 || isFPSort(kl[0].sort) {
 		return mapInfo{}
 	}
 	k := typeKey(mt.Key()) + "=>" + typeKey(mt.Elem())
